@@ -5,8 +5,33 @@ use crate::proj::{cps, World};
 use serde_json::{json, Value as J};
 use std::panic::{catch_unwind, AssertUnwindSafe};
 use xot::output::xml::{Declaration, Parameters};
-use xot::output::{Indentation, NoopNormalizer, Output, TokenSerializeParameters};
+use std::borrow::Cow;
+use xot::output::{Indentation, NoopNormalizer, Normalizer, Output, TokenSerializeParameters};
 use xot::{NameId, Node};
+
+/// The normaliser NormF of XotSerial: a total string function that turns ordinary characters into ones that need
+/// escaping ('x' -> '<', U+00E9 -> '&'), into the CDATA terminator's bracket (U+1F600 -> ']') and one character into
+/// two ('y' -> "]]"). Whatever it returns has to be escaped like content that was there from the start.
+pub struct ClassNormalizer;
+
+impl Normalizer for ClassNormalizer {
+    fn normalize<'a>(&self, content: Cow<'a, str>) -> Cow<'a, str> {
+        if !content.chars().any(|c| matches!(c, 'x' | '\u{e9}' | '\u{1F600}' | 'y')) {
+            return content;
+        }
+        let mut s = String::new();
+        for c in content.chars() {
+            match c {
+                'x' => s.push('<'),
+                '\u{e9}' => s.push('&'),
+                '\u{1F600}' => s.push(']'),
+                'y' => s.push_str("]]"),
+                c => s.push(c),
+            }
+        }
+        Cow::Owned(s)
+    }
+}
 
 fn names(w: &mut World, v: &J) -> Vec<NameId> {
     v.as_array()
@@ -181,6 +206,38 @@ pub fn ser_job(job: &J) -> J {
     }));
     m.insert("ptokres".into(), json!(if ptoks.is_ok() { "ok" } else { "panic" }));
     m.insert("ptoks".into(), json!(ptoks.unwrap_or_default()));
+    // the same through the *_with_normalizer entry points under NormF (only without indentation: one law at a time)
+    if !indent {
+        let (nres, ntext) = str_result(catch_unwind(AssertUnwindSafe(|| w.xot.serialize_xml_string_with_normalizer(params(), root, ClassNormalizer))));
+        let nwr = catch_unwind(AssertUnwindSafe(|| {
+            let mut sink = ShortWriter { buf: vec![], step: 1 };
+            w.xot.serialize_xml_write_with_normalizer(params(), root, &mut sink, ClassNormalizer).map(|_| String::from_utf8_lossy(&sink.buf).to_string())
+        }));
+        let (nwres, nwtext) = str_result(nwr);
+        let (nre, nretree, nreroot) = if nres == "ok" {
+            let s: String = ntext.iter().map(|c| char::from_u32(*c).unwrap_or('?')).collect();
+            reparse(&s, frag)
+        } else {
+            ("na".to_string(), json!({"n": [], "cons": true, "eo": false, "rs": [], "bad": ""}), 0)
+        };
+        let ntoks = catch_unwind(AssertUnwindSafe(|| {
+            w.xot
+                .tokens(root, tparams(), ClassNormalizer)
+                .map(|(n, o, t)| json!({"n": w.known(n).unwrap_or(0), "k": kind_of(&o), "sp": t.space, "s": cps(&t.text)}))
+                .collect::<Vec<J>>()
+        }));
+        m.insert("nres".into(), json!(nres));
+        m.insert("ntext".into(), json!(ntext));
+        m.insert("nwres".into(), json!(nwres));
+        m.insert("nwtext".into(), json!(nwtext));
+        m.insert("nre".into(), json!(nre));
+        m.insert("nretree".into(), nretree);
+        m.insert("nreroot".into(), json!(nreroot));
+        m.insert("ntokres".into(), json!(if ntoks.is_ok() { "ok" } else { "panic" }));
+        m.insert("ntoks".into(), json!(ntoks.unwrap_or_default()));
+    } else {
+        m.insert("nres".into(), json!("na"));
+    }
     // the forest as the real Xot shows it afterwards (serialisation must not change it)
     let post = w.project(None);
     m.insert("post".into(), post);
